@@ -41,12 +41,14 @@ reg["C01"] = {"level": "model_checking", "explanation": EXPL, "assumptions": ASS
     "outside": ["JSON/protobuf rendering of bodies", "process crash/restart (SQL engine durability is assumed)", "claim payloads and notifications are checked under C07/C08/C19"],
     "harnesses": co(PROMISE_H, ["C01:", "O2:G1", "O2:I2", "O2:I1:promises"], reach=REACH_P) + co(CB_H, ["C01:", "O2:G1", "O2:I2"], opts=CBOPT, reach=REACH_P)
                  + store(["VH_C16_UpdatePromise", "VH_C16_CreatePromise"], []) + store(["VH_C05_CompletionTxn"], ["C01:"])}
+ROUTEOPT_EARLY = {"slots.callbacks": 0, "slots.locks": 0, "slots.schedules": 0, "slots.promises": 2, "slots.tasks": 2}
 reg["C03"] = {"level": "model_checking", "explanation": EXPL, "assumptions": ASSUME_CO,
     "outside": ["HTTP/gRPC header parsing of the idempotency key and strict flag"],
-    "harnesses": co(["VH_P_Create", "VH_P_Complete"], ["C03:", "O2:G1"], reach=REACH_P)}
+    "harnesses": co(["VH_P_Create", "VH_P_Complete"], ["C03:", "C01:", "O2:G1"], reach=REACH_P) + co(["VH_D_CreateWithTask"], ["C03:"], opts=ROUTEOPT_EARLY, reach={"VH_D_CreateWithTask": ["created", "exists"]})}
 reg["C04"] = {"level": "model_checking", "explanation": EXPL, "assumptions": ASSUME_CO + ["the wall clock behind time.Now() is monotone; a tick's time is the time at which its transactions are built"],
     "outside": ["wall clock to tick mapping in System.Loop", "search responses (C14)"],
-    "harnesses": co(PROMISE_H, ["C04:", "O2:I2"], reach=REACH_P)}
+    "harnesses": co(PROMISE_H, ["C04:", "O2:I2"], reach=REACH_P) + co(["VH_P_Search"], ["C04:", "C14:overdue"], opts={"slots.callbacks": 1, "slots.locks": 0, "slots.schedules": 0, "slots.promises": 2, "slots.tasks": 1, "faults": 0}, reach={"VH_P_Search": ["page"]})
+                 + store(["VH_R_ReadPromises"], ["C04:"])}
 reg["C05"] = {"level": "model_checking", "explanation": EXPL, "assumptions": ASSUME_CO,
     "outside": ["dispatch of the created tasks (C08)", "crash between commits (atomicity of one SQL transaction is assumed)"],
     "harnesses": store(["VH_C05_CompletionTxn"], ["C05:"]) + store(["VH_C16_CreateCallback", "VH_C16_DeleteCallbacks", "VH_C16_CreateTasks"], [])
@@ -151,3 +153,36 @@ reg["C17"] = {"level": "translation_validation", "explanation": "for each of the
     "assumptions": COMMON_ASSUME + ["documented dialect differences are not alarms: parameter numbering; LIKE collation (one uninterpreted predicate); JSON containment @> vs per-key json_extract on string-valued maps; rows of a LIMIT query without total order compared by count; SQLite's arbitrary representative under GROUP BY vs DISTINCT ON .. ORDER BY sort_id compared by the number of roots served; SERIAL vs AUTOINCREMENT; cursor positions within 32 bits"],
     "outside": ["the engines' own behaviour (MVCC, collations, JSON operators on non-string values)", "Postgres cannot be run here: its half of a counterexample is by reading, the SQLite half is demonstrable natively"],
     "harnesses": [{"name": "VH_E_" + n, "pkg": CO, "labels": ["C17:"], "reach": ["both-ok"]} for n in E_H] + [{"name": "VH_E_Schema", "pkg": CO, "labels": ["C17:"], "reach": ["done"]}]}
+
+# C02: linearizability by the rely/guarantee argument
+ALL_REQ = co(PROMISE_H[:3], ["C01:", "C03:", "C04:never", "C04:timeout", "C04:no-"], reach=REACH_P) + co(CB_H, ["C01:", "C05:"], opts=CBOPT, reach=REACH_P) \
+    + co(["VH_C07_Claim"], ["claim", "refus", "invalid"], opts={"slots.callbacks": 0, "slots.locks": 0, "slots.schedules": 0, "slots.promises": 2, "slots.tasks": 2}, reach=REACH_P) \
+    + co(["VH_T_Complete", "VH_T_Heartbeat"], ["C07:"], opts=TASKOPT, optsT=TASKOPT_T, reach=REACH_P) \
+    + co(["VH_L_Acquire", "VH_L_Release", "VH_L_Heartbeat"], ["C09:"], opts=LOCKOPT, optsT=LOCKOPT_T, reach=REACH_P) \
+    + co(["VH_S_Create", "VH_S_Delete"], ["C10:"], opts=SCHEDOPT, optsT=SCHEDOPT_T, reach=REACH_P)
+reg["C02"] = {"level": "model_checking",
+    "explanation": "linearizability is decided through a rely/guarantee reduction instead of enumerating interleavings: every request coroutine is executed symbolically with an arbitrary invariant- and guarantee-respecting change of the database before each of its store submissions (this covers every interleaving/batching with any number of other requests, DESIGN 3), and SMT shows (1) its response equals the sequential reference applied to the database state its decisive transaction ran on (a state that existed), (2) that transaction is the request's only effect and is itself the sequential reference's effect, (3) the invariant and guarantee are preserved by every transaction of every coroutine, which closes the induction. The linearization point is the decisive transaction; it lies between submission and response",
+    "assumptions": ASSUME_CO + ["store submissions are executed atomically and in an order consistent with tick order (kernel is single threaded; the store worker executes batches serially)"],
+    "outside": ["an explicit two-request product exploration (self-composition) is not built: pairs are covered through the environment abstraction, which is complete only relative to Inv/G being the right abstraction of 'what other requests can do' (that is what obligation (3) proves)", "search responses (C14) and claim payload promises are checked for row-equality only"],
+    "harnesses": ALL_REQ + [dict(h, opts=dict(h["opts"], retries=1)) for h in co(["VH_P_CompleteOwnEffect"], ["C02:"], reach={"VH_P_CompleteOwnEffect": ["answered"]}) if h.get("tier") != "thorough"]}
+reg["C06"] = {"level": "model_checking",
+    "explanation": "the logical half of durability decided by SMT: Execute of both backends with a failure injected at every database/sql call position of a two-transaction batch (error => database equals the BeginTx snapshot, result => commit succeeded, every statement ran on the transaction opened by this Execute); store.Process builds completions only from a committed Execute; the state invariant (no completed promise with unconverted registrations, no invoke task without its promise) holds after EVERY single commit of every coroutine (labels O2:*), so stopping the process between any two store operations leaves a consistent state; routed creation and completion are single transactions",
+    "assumptions": COMMON_ASSUME + ["a committed SQL transaction survives a process kill and an uncommitted one leaves no trace: the durability of SQLite/Postgres themselves is trusted, not checked"],
+    "outside": ["kill -9 / restart of the serve command, WAL/fsync behaviour, repeated crashes during recovery", "SqliteStore.Stop/Reset file handling and the default of the reset flag"],
+    "harnesses": store(["VH_C06_ExecuteAtomic", "VH_C06_ProcessError"], ["C06:", "C16:", "C12:"]) and [dict(h, reach=["committed", "failed"]) for h in store(["VH_C06_ExecuteAtomic", "VH_C06_ProcessError"], ["C06:", "C16:", "C12:"])]
+                 + co(PROMISE_H, ["O2:"], reach=REACH_P) + co(CB_H, ["O2:"], opts=CBOPT, reach=REACH_P) + co(["VH_D_CreateRouted", "VH_D_CreateWithTask"], ["O2:", "C08:routed", "C08:promise-and-task", "C08:create-with-task"], opts=ROUTEOPT, reach=REACH_P)
+                 + store(["VH_C05_CompletionTxn"], ["C05:registration", "C05:exactly", "C05:created"])}
+reg["C18"] = {"level": "model_checking",
+    "explanation": "bounded symbolic execution of the real connection table (add / rmv / get) and PollWorker.Process over every sequence of k operations (connect, disconnect incl. the late disconnect of a replaced connection, send) with arbitrary (symbolic) group and id strings - which of them coincide is decided by the solver - every buffer size 1..2, limit 1..2, and every random pick; after each step SMT decides the statement's clauses",
+    "assumptions": ["channels are modelled as bounded FIFOs with non-blocking operations only (that is all the encoded code uses); prometheus gauges are no-ops; rand.Intn explores every value"],
+    "outside": ["the worker's select priorities and the timing of sends relative to connection changes across goroutines", "the HTTP streaming handler and shutdown of the plugin"],
+    "harnesses": [{"name": "VH_C18_Ops", "pkg": "internal/app/plugins/poll", "labels": ["C18:"], "opts": {"steps": 3}, "opts_thorough": {"steps": 4}, "reach": ["done", "delivered", "reconnect", "limit-reached", "late-disconnect"]}]}
+reg["C20"] = {"level": "model_checking",
+    "explanation": "verbatim storage is decided as equalities over arbitrary strings/bytes/maps/64-bit integers: every create/update handler of both backends writes exactly the supplied arguments (C16 harnesses), every read returns the row's content (record -> object conversion, body-is-row obligations), ids are matched with '=' on the unmodified argument (conditional-write guards), derived ids embed the client id unaltered (task id of a routed promise, callback/subscription ids, scheduled promise id = expand(template, id, occurrence)), gRPC handlers copy request fields unmodified",
+    "assumptions": ASSUME_CO + FRONT_ASSUME + ["nil and empty maps / byte strings are the same datum"],
+    "outside": ["wire encodings: base64 in JSON, gin path handling (seeded change C20-A lives there), protobuf", "HTML escaping inside html/template", "restart"],
+    "harnesses": store(["VH_C16_CreatePromise", "VH_C16_UpdatePromise", "VH_C16_CreateCallback", "VH_C16_CreateTask", "VH_C16_CreateTasks", "VH_C16_CreateSchedule", "VH_C16_AcquireLock"], [])
+                 + co(["VH_P_Read", "VH_P_Create", "VH_P_Complete"], ["C01:body", "C20:"], reach=REACH_P) + co(CB_H, ["C05:registration-stored", "C05:registration-returned"], opts=CBOPT, reach=REACH_P)
+                 + co(["VH_S_Fire"], ["C10:promise-as-configured", "C10:promise-created"], opts=SCHEDOPT, optsT=SCHEDOPT_T, reach=REACH_P)
+                 + co(["VH_D_CreateRouted"], ["C08:invocation-task-addressed-as-routed"], opts=ROUTEOPT, reach=REACH_P)
+                 + grpc(["C20:", "C15:request-fields-copied"], ["ReadPromise", "CreatePromise", "CreateSchedule"])}
